@@ -202,7 +202,7 @@ def rule_transition(ctx):
             "one transition axiom for every predicate of self.left or self.right (the union of both predicate sets): %s" % (sym.pretty(preds)[:300] if preds is not None else None), construct=preds)
     tf = fx.fn("sigma_0::Predicate::to_formula")
     v = ev.function(tf)
-    ok = v[0] == "ctor" and "('place', 'self.symbol')" in repr(v) and "('place', 'self.arity')" in repr(v) and "'X{i}'" in repr(v) and "GeneralTerm::Variable" in repr(v)
+    ok = v[0] == "ctor" and "('place', 'self.symbol')" in repr(v) and "('place', 'self.arity')" in repr(v) and "'X{}'" in repr(v) and "GeneralTerm::Variable" in repr(v)
     ctx.add("TPL", "to_formula", ok, ctx.site(tf), "Predicate::to_formula = symbol(X1..Xarity) with distinct general variables", construct=v)
     # here/there prefixes are part of C05 (FRESH-LIT ii)
 
